@@ -12,9 +12,24 @@ import (
 var boundaryBits = []uint{7, 8, 15, 16, 31, 32, 52, 53, 62, 63, 64, 65, 127, 128}
 
 // BigInt draws an integer on both sides of the machine-word boundary.
+var corners = func() []*big.Int {
+	var out []*big.Int
+	for _, s := range []string{"0", "1", "-1", "2", "-2", "-9223372036854775808", "9223372036854775807", "-9223372036854775807", "9223372036854775808",
+		"4611686018427387904", "-4611686018427387904", "4294967296", "-4294967296", "2147483648", "-2147483648", "3037000500", "-3037000500", "18446744073709551615", "18446744073709551616"} {
+		b, _ := new(big.Int).SetString(s, 10)
+		out = append(out, b)
+	}
+	return out
+}()
+
 func BigInt(t *rapid.T, label string) *big.Int {
 	var v *big.Int
-	switch rapid.IntRange(0, 9).Draw(t, label+"_kind") {
+	switch rapid.IntRange(0, 10).Draw(t, label+"_kind") {
+	case 10:
+		// exact corners of the machine-word representations and the units: pairs of these (MinInt64 with -1,
+		// MaxInt64 with 2, ...) are where overflow tests of word arithmetic have their single blind spots
+		v = new(big.Int).Set(corners[rapid.IntRange(0, len(corners)-1).Draw(t, label+"_corner")])
+		return v
 	case 0, 1:
 		v = big.NewInt(int64(rapid.IntRange(-20, 20).Draw(t, label+"_small")))
 	case 2, 3, 4:
